@@ -146,7 +146,7 @@ def runOp (cfg : Cfg) (w : World) (op : String) (s : Nat) (key : Name) (val : Li
   | "getattr" => some ((match getT cfg t key with
       | .ok v => str (showTree v) | .error .key => "!attr" | .error e => showErr e), w)
   | "hasattr" => some ((match getT cfg t key with
-      | .ok _ => "T" | .error .key => "F" | .error e => showErr e), w)
+      | .ok _ => "T" | .error .key => "F" | .error .attr => "F" | .error e => showErr e), w)
   | "in" => some ((match containsT cfg t key with
       | .ok true => "T" | .ok false => "F" | .error e => showErr e), w)
   | "set" | "setattr" => do
